@@ -329,6 +329,9 @@ def body(run, tier):
     workdir = run.workdir
     loop = cascade.get_loop()         # builds the functions + extracts the constants (MachineryError if not found)
     consts = cascade.constants_summary(loop.C)
+    if getattr(loop, "script_drift", None):
+        run.spec_drift("rdd2_sim.py/structure", "scripts/rdd2_sim.py is no longer readable by the static reader (" + loop.script_drift[:200] +
+                       "): the loop is closed with the gains and wiring pinned from the reference tree (harness/cascade_pinned.json)")
 
     if "--replay" in sys.argv:
         d = json.load(open(sys.argv[sys.argv.index("--replay") + 1]))
